@@ -1041,6 +1041,23 @@ func withEquivalents(fs []FactT) []FactT {
 		} else if strings.Contains(t, " : ") {
 			continue
 		}
+		// sdk.Coins.Empty(x) ≡ (len(x) == 0)
+		if strings.HasPrefix(t, "sdk.Coins.Empty(") && strings.HasSuffix(t, ")") && len(splitTop(t[len("sdk.Coins.Empty("):len(t)-1], ", ")) == 1 {
+			x := t[len("sdk.Coins.Empty(") : len(t)-1]
+			add("(len("+x+") == 0)", holds, f.Where)
+			add("(len("+x+") != 0)", !holds, f.Where)
+		}
+		for _, form := range []struct {
+			op string
+			eq bool
+		}{{" == 0)", true}, {" != 0)", false}} {
+			if strings.HasPrefix(t, "(len(") && strings.HasSuffix(t, ")"+form.op) {
+				x := t[len("(len(") : len(t)-len(form.op)-1]
+				if len(splitTop(x, ", ")) == 1 && !strings.ContainsAny(x, " ") {
+					add("sdk.Coins.Empty("+x+")", holds == form.eq, f.Where)
+				}
+			}
+		}
 		// (a op b)
 		if strings.HasPrefix(t, "(") && strings.HasSuffix(t, ")") {
 			inner := t[1 : len(t)-1]
